@@ -68,6 +68,10 @@ EVALUABLE = Frag()
 AGG_TUPLE = ["Tuple", [3, -1, 4, 1]]
 AGG_DICT = ["Dict", [[["Tuple", [i, j]], 10 * i + j] for i in range(3) for j in range(3)]]
 AGG_OBJ = ["Obj", {"a": 5, "b": -2, "inner": ["Obj", {"c": 9}]}]
+# never bound in any environment; some are spelled like Python builtins, which an
+# evaluator must not fall back to
+UNBOUND_NAMES = ("unbound_u", "unbound_u", "abs", "len", "sum", "id", "pow", "hash", "max")
+
 BASE_ENV = {"A": AGG_TUPLE, "D": AGG_DICT, "O": AGG_OBJ,
             **{f: ["Func", f] for f in envs.FUNCS}}
 
@@ -109,7 +113,7 @@ def expr(draw, kind="NUM", depth=4, frag=EVALUABLE):
         if frag.poison and d(st.integers(0, 14)) == 0:
             return d(st.sampled_from([
                 ["Quotient", ["Const", "int", 1], ["Const", "int", 0]],
-                ["Var", "unbound_u"],
+                ["Var", d(st.sampled_from(UNBOUND_NAMES))],
                 ["Call", ["Var", "cnt"], [["Const", "int", 1]]],
                 ["Remainder", ["Var", "x"], ["Const", "int", 0]],
             ]))
